@@ -1346,6 +1346,10 @@ namespace Pistache::Async
             {
                 std::lock_guard<std::mutex> guard(data->mtx);
 
+                // Only the first rejection settles the promise, later ones are ignored
+                if (data->rejected)
+                    return;
+
                 data->rejected = true;
                 data->reject(exc);
             }
@@ -1406,6 +1410,10 @@ namespace Pistache::Async
             static void reject(std::exception_ptr exc, Data& data)
             {
                 std::lock_guard<std::mutex> guard(data->mtx);
+
+                // Only the first outcome settles the promise, later ones are ignored
+                if (data->done)
+                    return;
 
                 data->done = true;
                 data->reject(exc);
